@@ -305,7 +305,7 @@ func TestBinomExhaustive(t *testing.T) {
 
 func TestRandom(t *testing.T) {
 	ev.Rule(rule)
-	ev.Rapid(t, "c06-binom", 300, 20000, func(rt *rapid.T) {
+	ev.Rapid(t, "c06-binom", 1500, 20000, func(rt *rapid.T) {
 		c := &BCase{N: rapid.IntRange(0, 1000).Draw(rt, "n")}
 		switch rapid.IntRange(0, 4).Draw(rt, "pkind") {
 		case 0:
@@ -333,7 +333,7 @@ func TestRandom(t *testing.T) {
 		}
 		checkBinom.Run(rt, c)
 	})
-	ev.Rapid(t, "c06-hyper", 300, 20000, func(rt *rapid.T) {
+	ev.Rapid(t, "c06-hyper", 1500, 20000, func(rt *rapid.T) {
 		N := rapid.IntRange(2, 1000).Draw(rt, "n")
 		c := &HCase{N: N, K: rapid.IntRange(0, N).Draw(rt, "k"), Draws: rapid.IntRange(0, N).Draw(rt, "draws")}
 		lo, hi := c.Draws+c.K-c.N, c.Draws
